@@ -211,8 +211,7 @@ def float_text_facts(text):
         exp = 'none'
     else:
         exp = 'abs<=22' if abs(int(edigits)) <= 22 else 'abs>22'
-    return {'form': 'decimal' if edigits is None else 'scientific', 'point': point, 'neg': bool(neg),
-            'sig_digits': '1-5' if sig <= 5 else ('6-15' if sig <= 15 else '16-17'), 'exp': exp}
+    return {'point': point, 'neg': bool(neg), 'sig_digits': '1-15' if sig <= 15 else '16-17', 'exp': exp}
 
 
 def double_facts(x):
